@@ -184,6 +184,15 @@ static inline u64 spec_upow_u32(u64 x, u32 y, unsigned ymax) {
     }
   return r;
 }
+/* x multiplied y times in 32-bit wrapping arithmetic (y <= ymax).  Equals x^y exactly whenever the value is
+ * representable (spec_ipow_fits_s32 / spec_upow_fits_u32 below): then no partial product wraps either, because partial
+ * products of a representable power are representable.  Cross-checked against spec_ipow_s32 / spec_upow_u32 in the
+ * self-test.  Used in the contracts because a product of the code's own width is what the solvers can match. */
+static inline u32 spec_pow_wrap32(u32 x, u32 y, unsigned ymax) {
+  u32 r = 1;
+  for (unsigned i = 0; i < ymax; i++) if (i < y) r = r * x;
+  return r;
+}
 /* the same representability question answered from a table of integer roots, for 0 <= y <= 12: x^y fits iff |x| is at
  * most floor(bound^(1/y)); -2^31 is reached only by x = -2^31, y = 1 in this range.  (Cross-checked against spec_ipow_s32 /
  * spec_upow_u32 in the self-test; stated this way the bound on x is explicit, which the solvers need.) */
